@@ -108,14 +108,18 @@ func traceMode(in *mbt.Input, res *mbt.Result) {
 		res.Count("watermarks", nw)
 		res.Count("checkpoints", len(o.ckpts))
 		p, what := o.safety()
+		known := ""
 		if what == "" {
-			p, what = o.complete(stuckOK)
+			w.mu.Lock()
+			sent := w.eoiSent
+			w.mu.Unlock()
+			p, what, known = o.complete(stuckOK, sent)
 		}
 		for _, p := range strings.Split(p, "+") {
 			if what == "" {
 				break
 			}
-			res.Violations = append(res.Violations, mbt.Violation{Property: p, Behaviour: ri, Step: -1, What: fmt.Sprintf("free run %d (maxSize %d, delay %dms): %s", ri, maxSize, delayMs, what),
+			res.Violations = append(res.Violations, mbt.Violation{Known: known, Property: p, Behaviour: ri, Step: -1, What: fmt.Sprintf("free run %d (maxSize %d, delay %dms): %s", ri, maxSize, delayMs, what),
 				Observed: map[string]any{"streams": fmtStreams(o.streams), "read_order": fmt.Sprint(o.order), "checkpoints": o.ckpts}})
 		}
 	}
